@@ -76,6 +76,16 @@ def ty_parse(t):
         if k is None and rest.startswith('::'):
             a = ty_parse(rest[2:])
             return ('proj', a[1], (ty_parse(inner), None) + tuple(a[2]))
+    # type declared inside a method of a trait impl:  mod::_::<impl Trait for T>::method::Local<..>  (serde-derive's __Field, __Visitor)
+    pimpl = t.find('::<impl ')
+    if pimpl > 0 and not t.startswith('<'):
+        q = matching_close(t, pimpl + 2)
+        rest = t[q + 1:]
+        if rest.startswith('::'):
+            segs = split_top(rest[2:], '::')
+            if len(segs) >= 2:
+                a = ty_parse(segs[-1])
+                return ('path', '@local::' + _canon_path(t[:pimpl]) + '::@impl::' + '::'.join(segs[:-1]) + '::' + a[1], a[2])
     # path with generic args (possibly in the middle: a::B<X>::C is not a type we meet)
     k = None
     for i, c, d in _depth_scan(t):
